@@ -3,10 +3,35 @@
    NetAccept.v, NetConnect.v (mirrors of network_{read,write,accept,connect}.c); the errno sets
    of the retry conditions are regenerated from the C text (Gen/Repo_net.v).
    "A readiness callback is delivered at most once per registration and only while registered"
-   is C04 (event loop) and is what drives these machines. *)
+   is C04 (event loop) and is what drives these machines.
+
+   BUILD CONFIGURATIONS of network_write.c.  callback_buf exists in two configurations: the default
+   one (send with MSG_NOSIGNAL) and -DPOSIXFAIL_MSG_NOSIGNAL (send with flag 0 between
+   signal(SIGPIPE, SIG_IGN) and the restoring signal(), errno saved over the latter).  The write
+   machine [write_cb] is configuration-independent: it is the function of the send() ANSWERS (return
+   value, and errno as left by send itself) that both configurations have to implement; the
+   SIGPIPE / errno bookkeeping around the call is not modelled.  That each configuration implements
+   this function - in particular that a failed send() is classified on send()'s own errno - and
+   that MSG_NOSIGNAL is passed (default) resp. SIGPIPE is ignored around the call and restored
+   (POSIXFAIL) is decided by the correspondence run: areas/net.py builds the driver in both
+   configurations and runs every write scenario on both against the one model log, with a scripted
+   poll()/signal() that leave a rotating errno behind.
+
+   CANCEL.  The single-slot life-cycle theorems (C06_cancel_silences, C06_write_cancel_silences,
+   C06_accept_cancel_silences, C06_cancelled_never_calls_back) are about [rd_life] / [wr_life] /
+   [acc_life], whose step functions ignore every input offered to an empty slot BY DEFINITION: they
+   record the slot discipline assumed from C04 (C04_invoke_only_while_registered) and say little
+   more.  The statements with content are the COMPOSED ones further down (C06_cancel_silences_composed,
+   C06_callbacks_le_starts_composed, C06_slots_exclusive, C06_cancel_frees_slot,
+   C06_restart_after_cancel): an invariant of Net/NetWorld.v - the executable composition of the
+   request machines, the netbuf layer, the registration slots and the scripted kernel that the
+   correspondence run compares with the C - proved for every script.  The event loop of events*.c
+   itself is not composed in Coq (NetWorld has its own stand-in: one slot per (descriptor,
+   direction)); that the C behaves like NetWorld is what the correspondence run decides. *)
 From Coq Require Import NArith ZArith List Bool Arith.
 From LCP Require Import Base.CheckedMem Gen.Repo_net Net.NetRW Net.NetAccept Net.NetConnect.
 From LCP Require Import Net.NetRWProofs Net.NetAcceptProofs Net.NetConnectProofs Net.NetTie.
+From LCP Require Import Net.NetWorld Net.NetWorldProofs.
 Import ListNotations.
 Local Open Scope nat_scope.
 
@@ -131,9 +156,14 @@ Theorem C06_write_requests_exact : forall buf min (l : list (sanswer * bool)),
 Proof. exact (write_requests_exact write_retry). Qed.
 Print Assumptions C06_write_requests_exact.
 
-(* ---- M3: cancel.  Histories of kernel answers and cancels offered to the registration slot of
-   one request: after a cancel nothing at all is observed (no callback, no recv) and the slot is
-   free; at most one callback in any history; none if the cancel came while still registered. *)
+(* ---- M3: cancel, one registration slot in isolation.  Histories of kernel answers and cancels
+   offered to the slot of one request.  NOTE: [rd_life_step] maps every input offered to an empty
+   slot to "no observation" by definition (the slot discipline of C04), so C06_cancel_silences,
+   C06_cancelled_never_calls_back, C06_write_cancel_silences and C06_accept_cancel_silences unfold
+   that definition along a history; what they add is only that the bookkeeping is consistent (a
+   cancel empties the slot, the observations before it are unchanged).  The "at most one callback
+   in ANY history" theorems do say something about read_cb / write_cb / accept_cb: a callback always
+   empties the slot.  The composed statements are in section M6. *)
 Theorem C06_cancel_silences : forall slot pre post,
   rd_life read_retry slot (pre ++ InCancel :: post) =
     (None,
@@ -160,13 +190,27 @@ Theorem C06_write_cancel_silences : forall pre slot post s o,
 Proof. exact (write_cancel_silences_lemma write_retry). Qed.
 Print Assumptions C06_write_cancel_silences.
 
+Theorem C06_write_callback_at_most_once : forall ins slot s o,
+  wr_life write_retry slot ins = Ok (s, o) -> length (filter is_wcb o) <= 1.
+Proof. exact (wr_life_callback_once_lemma write_retry). Qed.
+Print Assumptions C06_write_callback_at_most_once.
+
+Theorem C06_write_cancelled_never_calls_back : forall C pre post C' o,
+  wr_life write_retry (Some C) pre = Ok (Some C', o) ->
+  exists o', wr_life write_retry (Some C) (pre ++ WInCancel :: post) = Ok (None, o') /\
+             filter is_wcb o' = [].
+Proof. exact (write_cancelled_never_calls_back_lemma write_retry). Qed.
+Print Assumptions C06_write_cancelled_never_calls_back.
+
 (* ---- M4: connect over EVERY address list (fail at once with or without a descriptor, fail
    asynchronously, time out, succeed, in any order), with or without per-address timeout.
-   Hypotheses: an asynchronous error is not 0, and an address that never answers needs the
-   timeout (otherwise the request rightly waits for ever).  [winner], [reached] are plain
-   recursions over the list (NetConnectProofs.v) characterised by C06_winner_is_first_ok. *)
+   Hypotheses, about the addresses the request actually gets to only ([reached sas] = up to and
+   including the first one that connects; what the kernel would do for later ones is never asked):
+   an asynchronous error is not 0, and an address that never answers needs the timeout (otherwise
+   the request rightly waits for ever).  [winner], [reached] are plain recursions over the list
+   (NetConnectProofs.v) characterised by C06_winner_is_first_ok. *)
 Theorem C06_connect_first_success : forall timeo sas,
-  Forall wf_outcome sas -> Forall (no_hang timeo) sas ->
+  Forall wf_outcome (firstn (reached sas) sas) -> Forall (no_hang timeo) (firstn (reached sas) sas) ->
   exists trace,
     conn_run timeo sas = Ok (trace, Finished 0%Z) /\
     callbacks trace = [winner 0 sas] /\
@@ -185,8 +229,9 @@ Theorem C06_winner_is_first_ok : forall sas i,
 Proof. exact first_ok_some. Qed.
 Print Assumptions C06_winner_is_first_ok.
 
-(* cancel is safe in every state a started request can be in: no assert, the descriptor of the
-   attempt in progress is closed, no callback *)
+(* cancel is safe in every state a started request can be in, whatever the outcomes of the
+   allocation and of the registrations made so far (rg): no assert, the descriptor of the attempt in
+   progress is closed, no callback *)
 Theorem C06_connect_cancel_safe : forall st,
   cancel_safe st ->
   exists obs, connect_cancel st = Ok obs /\
@@ -196,11 +241,11 @@ Proof. exact cancel_ok_lemma. Qed.
 Print Assumptions C06_connect_cancel_safe.
 
 Theorem C06_connect_states_cancel_safe :
-  (forall timeo sas next st obs,
-     network_connect timeo sas next true all_ok = (Running st, obs) -> cancel_safe st) /\
+  (forall timeo sas next cookie_ok rg st obs,
+     network_connect timeo sas next cookie_ok rg = (Running st, obs) -> cancel_safe st) /\
   (forall st ev rg st' obs,
      cancel_safe st -> conn_step st ev rg = (Running st', obs) -> cancel_safe st').
-Proof. exact (conj connect_states_cancel_safe_lemma conn_step_running_safe). Qed.
+Proof. exact (conj connect_states_cancel_safe_any_lemma conn_step_running_safe). Qed.
 Print Assumptions C06_connect_states_cancel_safe.
 
 (* ---- M5: accept.  (Re-registrations succeed; when one fails the code reports through the event
@@ -227,3 +272,77 @@ Theorem C06_accept_cancel_silences : forall pre armed post,
             (if fst (acc_life accept_retry armed pre) then [ObsAccCancelled] else [])).
 Proof. exact (accept_cancel_silences_lemma accept_retry). Qed.
 Print Assumptions C06_accept_cancel_silences.
+
+Theorem C06_accept_callback_at_most_once : forall ins armed,
+  length (filter is_acb (snd (acc_life accept_retry armed ins))) <= 1.
+Proof. exact (accept_callback_once_lemma accept_retry). Qed.
+Print Assumptions C06_accept_callback_at_most_once.
+
+(* ---- M6: the composition.  Net/NetWorld.v runs the request machines above, the netbuf reader and
+   writer, one registration slot per (descriptor, direction) and the scripted kernel together; its
+   interpreter [go] executes the scripts of the correspondence run (requests started from inside
+   callbacks, cancels at any instant, several descriptors, read + write on one descriptor).
+   [world_events fuel ops] is the log of the run in chronological order (run_script = this log
+   followed by the trailer).  For EVERY script ops, every amount of fuel and every fill byte: *)
+
+(* at most one request is registered per (descriptor, direction) *)
+Theorem C06_slots_exclusive : forall fill fuel ops,
+  NoDup (map key (wd_reqs (final_world read_retry write_retry accept_retry (N.to_nat WBUFLEN)
+                             (N.to_nat RBUF_INIT) (N.to_nat RBUF_GROW) fill fuel ops))).
+Proof.
+  exact (fun fill => slots_exclusive_lemma read_retry write_retry accept_retry (N.to_nat WBUFLEN)
+                       (N.to_nat RBUF_INIT) (N.to_nat RBUF_GROW) fill).
+Qed.
+Print Assumptions C06_slots_exclusive.
+
+(* after "cancel id" no callback of request id is logged, unless a request with that id was
+   successfully started again in between *)
+Theorem C06_cancel_silences_composed : forall fill fuel ops id pre mid v b post,
+  world_events read_retry write_retry accept_retry (N.to_nat WBUFLEN) (N.to_nat RBUF_INIT)
+               (N.to_nat RBUF_GROW) fill fuel ops = pre ++ LgCancel id :: mid ++ LgCb id v b :: post ->
+  exists k, In (LgStart k id true) mid.
+Proof.
+  exact (fun fill => cancel_silences_world_lemma read_retry write_retry accept_retry (N.to_nat WBUFLEN)
+                       (N.to_nat RBUF_INIT) (N.to_nat RBUF_GROW) fill).
+Qed.
+Print Assumptions C06_cancel_silences_composed.
+
+(* callbacks of id never outnumber the successful starts of id (read, write and accept alike) *)
+Theorem C06_callbacks_le_starts_composed : forall fill fuel ops id,
+  let ev := world_events read_retry write_retry accept_retry (N.to_nat WBUFLEN) (N.to_nat RBUF_INIT)
+                         (N.to_nat RBUF_GROW) fill fuel ops in
+  length (filter (is_cb_of id) ev) <= length (filter (is_start_of id) ev).
+Proof.
+  exact (fun fill => callbacks_le_starts_lemma read_retry write_retry accept_retry (N.to_nat WBUFLEN)
+                       (N.to_nat RBUF_INIT) (N.to_nat RBUF_GROW) fill).
+Qed.
+Print Assumptions C06_callbacks_le_starts_composed.
+
+(* in any world satisfying the invariant (every reachable one: world_inv_lemma) a cancel frees the
+   (descriptor, direction) of the request it cancels, and the next read on it is accepted *)
+Theorem C06_cancel_frees_slot : forall fill w id q,
+  winv w -> In q (wd_reqs w) -> is_user_id id q = true ->
+  busy (do_op (N.to_nat WBUFLEN) (N.to_nat RBUF_INIT) (N.to_nat RBUF_GROW) fill w (OpCancel id))
+       (q_fd q) (q_wr q) = false.
+Proof.
+  exact (fun fill => cancel_frees_slot_lemma (N.to_nat WBUFLEN) (N.to_nat RBUF_INIT) (N.to_nat RBUF_GROW) fill).
+Qed.
+Print Assumptions C06_cancel_frees_slot.
+
+Theorem C06_restart_after_cancel : forall fill w id q id2 buflen min cont,
+  winv w -> In q (wd_reqs w) -> is_user_id id q = true -> q_wr q = false -> 0 < buflen ->
+  let d := do_op (N.to_nat WBUFLEN) (N.to_nat RBUF_INIT) (N.to_nat RBUF_GROW) fill in
+  hd LgSkip (wd_log (d (d w (OpCancel id)) (OpRead id2 (q_fd q) buflen min cont))) = LgStart 0 id2 true.
+Proof.
+  exact (fun fill => restart_after_cancel_lemma (N.to_nat WBUFLEN) (N.to_nat RBUF_INIT) (N.to_nat RBUF_GROW) fill).
+Qed.
+Print Assumptions C06_restart_after_cancel.
+
+Theorem C06_reachable_worlds_invariant : forall fill fuel ops,
+  winv (final_world read_retry write_retry accept_retry (N.to_nat WBUFLEN) (N.to_nat RBUF_INIT)
+                    (N.to_nat RBUF_GROW) fill fuel ops).
+Proof.
+  exact (fun fill => world_inv_lemma read_retry write_retry accept_retry (N.to_nat WBUFLEN)
+                       (N.to_nat RBUF_INIT) (N.to_nat RBUF_GROW) fill).
+Qed.
+Print Assumptions C06_reachable_worlds_invariant.
